@@ -2,13 +2,21 @@
 
 package kcp
 
-import "verif/hx"
+import (
+	"time"
+
+	"verif/hx"
+)
 
 func init() {
 	hx.Register("C01", func(c *hx.Ctx) {
 		c.Rule(vfCoreRule)
 		c.Assume("raw message mode: a message has at most rcv_wnd fragments (documented KCP limit; the session layer never fragments)")
+		// the core grid gets 55% of the time, the session grid the rest
+		full := c.Deadline
+		c.Deadline = time.Now().Add(time.Until(full) * 55 / 100)
 		vfC01core(c)
+		c.Deadline = full
 		vfC01sess(c)
 	})
 	hx.Register("C03", vfC03)
